@@ -59,7 +59,7 @@ class Run:
             self.harness_bin = out
         return out
 
-    def harness(self, driver, args, binary=None, timeout=900, env_extra=None):
+    def harness(self, driver, args, binary=None, timeout=900, env_extra=None, allow_fail=False):
         binary = binary or self.harness_bin or self.build_harness()
         env = dict(os.environ)
         if env_extra:
@@ -73,6 +73,8 @@ class Run:
         for line in p.stdout.splitlines():
             if line.startswith("SUMMARY "):
                 summary = json.loads(line[8:])
+        if (p.returncode != 0 or summary is None) and allow_fail:
+            return {"_failed": True, "_stderr": p.stderr, "_stdout": p.stdout, "cases": 0, "counters": {}}
         if p.returncode != 0 or summary is None:
             raise Infra("harness %s failed (rc=%s):\n%s\n%s" % (driver, p.returncode, p.stdout[-3000:], p.stderr[-3000:]))
         for c in summary.get("crashes", []):
@@ -206,9 +208,10 @@ class Run:
 
     # ---------------------------------------------------------------- verdict
     def floor(self, name, value, minimum):
+        """Coverage floor: checked in finish(), and only when no violation was found (a violation reproduced on the
+        real code is a verdict even if the run could not cover everything it normally does)."""
         self.counters[name] = value
-        if value < minimum:
-            raise Infra("coverage floor missed: %s = %s < %s" % (name, value, minimum))
+        self.floors = getattr(self, "floors", []) + [(name, value, minimum)]
 
     def finish(self, level_rule, assumptions, exhaustive=False, extra_cov=None):
         known = load_known()
@@ -229,6 +232,10 @@ class Run:
                 known_hits.append((k, v))
                 continue
             reported.append(v)
+        if not reported:
+            for name, value, minimum in getattr(self, "floors", []):
+                if value < minimum:
+                    raise Infra("coverage floor missed: %s = %s < %s" % (name, value, minimum))
         # one replay file per distinct failing check (first case), to keep output small
         lines = []
         seen_checks = {}
